@@ -87,9 +87,12 @@ def run_cli(argv):
     from torchtree.cli import cli
 
     old = sys.argv
+    old_dtype = torch.get_default_dtype()
     sys.argv = ['torchtree-cli'] + list(argv)
     out, err = io.StringIO(), io.StringIO()
     try:
+        # the executable runs with torch's float32 default: the unconstrained initial values are computed in float32
+        torch.set_default_dtype(torch.float32)
         with contextlib.redirect_stdout(out), contextlib.redirect_stderr(err):
             cli.main()
     except SystemExit as e:
@@ -98,6 +101,7 @@ def run_cli(argv):
             return None, f'exit {e.code}: {lines[-1] if lines else ""}'
     finally:
         sys.argv = old
+        torch.set_default_dtype(old_dtype)
     return json.loads(out.getvalue()), None
 
 
@@ -109,8 +113,15 @@ def load_objects(js):
     remove_comments(js)
     expand_plates(js)
     dic = {}
-    for element in js:
-        process_objects(element, dic)
+    import logging
+
+    logging.disable(logging.CRITICAL)  # failures are reported through the exception, not through the root logger
+    try:
+        with contextlib.redirect_stdout(io.StringIO()):  # (the convergence monitor of Optimizer prints a table header)
+            for element in js:
+                process_objects(element, dic)
+    finally:
+        logging.disable(logging.NOTSET)
     return dic
 
 
@@ -345,7 +356,11 @@ def transform_domain(tf, d, xf):
     instance at the graph's x_T is a separate obligation)."""
     from torchtree.evolution.tree_height_transform import GeneralNodeHeightTransform
 
+    from torchtree.distributions.transforms import LogTransform
+
     xi = xf._ids.reshape(-1).tolist()
+    if isinstance(tf, LogTransform):
+        return [d.lt(0, x) for x in xi]
     if isinstance(tf, GeneralNodeHeightTransform):
         cs = []
         for r in xi[:-1]:
@@ -543,13 +558,19 @@ def numeric_logdet(obj):
     return float(torch.linalg.slogdet(J.reshape(-1, n)[:n])[1])
 
 
+def vnames(pid, shape):
+    """Name of the solver variable E > 0 standing for exp(unconstrained value): the universally quantified real u is
+    written u = log(E) (a bijection (0,inf) -> R), which keeps the path regions semi-algebraic."""
+    return ['exp:' + nm for nm in cm.names_shaped(pid, shape)]
+
+
 def set_values(dic, plan_base, vals):
     for pid in plan_base:
         p = dic[pid]
         cur_t = p.tensor.detach().clone().to(torch.float64)
-        names = cm.names_shaped(pid, tuple(cur_t.shape))
+        names = vnames(pid, tuple(cur_t.shape))
         flat = cur_t.reshape(-1).tolist()
-        new = [vals.get(nm, flat[k]) for k, nm in enumerate(names)]
+        new = [math.log(vals[nm]) if (nm in vals and vals[nm] > 0) else flat[k] for k, nm in enumerate(names)]
         p.tensor = torch.tensor(new, dtype=torch.float64).reshape(cur_t.shape)
 
 
@@ -600,18 +621,58 @@ def structural_diff(plan, unit):
 
 
 # =================================================================== one configuration
-def fail_signature(sub, groups, stage, exc):
+def fail_signature(sub, groups, stage, exc, tmp=None):
+    """`cli:<sub>:<smallest failing options>:<stage>-fails:<exception>`; <sub> is `*` when the same options fail in the
+    same way under all four sub-commands (defect in the shared model-building code)."""
+    if tmp is not None:
+        same = 0
+        for other in SUBS:
+            try:
+                js, rej = run_cli(argv_of(other, groups, tmp))
+                if js is None:
+                    break
+                st, ex, _, _ = concrete_stage(js, make_plan(js))
+            except Exception as e:
+                st, ex = 'build', type(e).__name__
+            if st == stage and ex == exc:
+                same += 1
+        if same == len(SUBS):
+            sub = '*'
     return f'cli:{sub}:{opts_str(groups)}:{stage}-fails:{exc}'
 
 
+def move_to_variational_mean(js, dic):
+    """ADVI never evaluates the model at the tensors written in the file: the parameters are overwritten by draws
+    from the variational distribution.  Its initial point is taken to be the mean (loc) of the initial Normal factors."""
+    reg = registry(js)
+    var = reg.get('variational')
+    moved = 0
+    for o in (var or {}).get('distributions', []) if isinstance(var, dict) else []:
+        o = resolve(o, reg)
+        if not isinstance(o, dict) or not str(o.get('distribution', '')).endswith('Normal'):
+            continue
+        x, loc = o.get('x'), (o.get('parameters') or {}).get('loc')
+        loc_id = loc.get('id') if isinstance(loc, dict) else loc
+        if isinstance(x, str) and x in dic and isinstance(loc_id, str) and loc_id in dic:
+            want = dic[loc_id].tensor.detach().clone()
+            if want.shape == dic[x].tensor.shape:
+                dic[x].tensor = want
+                moved += 1
+    return moved
+
+
 def concrete_stage(js, plan):
-    """Returns (stage, exception type name, message) of the first failure, or None."""
+    """Returns (stage, exception type name, message, objects) - stage None when nothing failed."""
     try:
         dic = load_objects(js)
+        if str(plan['runnable']).startswith('Optimizer:'):
+            move_to_variational_mean(js, dic)
     except Exception as e:
         return 'load', type(e).__name__, f'{e} [{traceback.format_exc().strip().splitlines()[-1][:160]}]', None
-    if plan['handed'] is None or plan['handed'] not in dic:
-        return 'load', 'NoTargetDensity', f'no sampler/optimiser or unknown target {plan["handed"]}', None
+    if plan['handed'] is None:
+        return None, None, None, dic  # (advi --iter 0: only a Sampler / Logger is emitted)
+    if plan['handed'] not in dic:
+        return 'load', 'NoTargetDensity', f'unknown target {plan["handed"]}', None
     try:
         moved = plan['moved'] if plan['moved'] is not None else plan['base']
         for pid in plan['base']:
@@ -694,14 +755,13 @@ def run_config(task, tr):
         tr.fn(hmc.create_hmc, hmc.create_hmc_operator)
     if sub == 'mcmc':
         tr.fn(mcmc.create_mcmc)
-    tr.sample({'configuration': label}, limit=400)
     rp = {'sub': sub, 'groups': [list(g) for g in groups]}
     # ---------------------------------------------------------------- build
     try:
         js, rejected = run_cli(argv_of(sub, groups, tmp))
     except Exception as e:
         mg = minimise(sub, groups, tmp, 'build', type(e).__name__)
-        tr.violation(fail_signature(sub, mg, 'build', type(e).__name__),
+        tr.violation(fail_signature(sub, mg, 'build', type(e).__name__, tmp),
                      f'torchtree-cli {label}: the builder raised {type(e).__name__}: {e}', dict(rp, kind='run'))
         return
     if js is None:
@@ -715,12 +775,17 @@ def run_config(task, tr):
     stage, exc, msg, dic = concrete_stage(js, plan)
     if stage is not None:
         mg = minimise(sub, groups, tmp, stage, exc)
-        tr.violation(fail_signature(sub, mg, stage, exc),
+        tr.violation(fail_signature(sub, mg, stage, exc, tmp),
                      f'torchtree-cli {label} is accepted by the CLI but the emitted JSON fails at {stage}: {exc}: {msg} '
                      f'(smallest failing option set: {opts_str(mg)})', dict(rp, kind='run'))
         if dic is None:
             return
-    check_initial_values(dic, wants, label, tr, sub, groups)
+    if plan['handed'] is None:
+        tr.notes.append(f'{label}: no sampler/optimiser is emitted (nothing is handed a density); loading only')
+        return
+    if wants:
+        # (values written in the file; for ADVI they parameterise the variational factors' means)
+        check_initial_values(load_objects(js), wants, label, tr, sub, groups)
     if plan['moved'] is not None and sorted(plan['moved']) != sorted(plan['base']):
         extra = sorted(set(plan['moved']) - set(plan['base']))
         lack = sorted(set(plan['base']) - set(plan['moved']))
@@ -744,27 +809,53 @@ def solver_stage(sub, groups, label, js, plan, dic0, tr):
     for k, pid in enumerate(plan['base']):
         v = dic0[pid].tensor.detach().to(torch.float64)
         shape = tuple(v.shape)
-        names = cm.names_shaped(pid, shape)
+        names = vnames(pid, shape)
         base[pid] = (shape, names)
         for i, (nm, x) in enumerate(zip(names, v.reshape(-1).tolist())):
             # generic witness: the CLI's initial point moved off its symmetric values
-            W[nm] = round(x + 0.05 + 0.0625 * ((3 * i + k) % 5), 6)
+            W[nm] = float(f'{math.exp(x + 0.05 + 0.0625 * ((3 * i + k) % 5)):.6g}')
     terms = list(plan['expected']) + [T for T in dict.fromkeys(plan['included']) if T not in plan['expected']]
-    state = {'cache': {}, 'lemma_failures': {}}
+    state = {'cache': {}, 'lemma_failures': {}, 'pc_cache': {}, 'tf_classes': set()}
     tr.stubs.add('substitution_model.p_t replaced by an uninterpreted matrix function P_ij(t; model parameters) '
                  '(the identity does not depend on P; replays use the real p_t)')
+    tr.stubs.add('torch.autograd.functional.jacobian inside CumSumExpTransform.log_abs_det_jacobian is answered by the engine\'s symbolic '
+                 'reverse differentiation of the traced function (as in C07)')
     tr.assumptions.add('torch clamps to finfo.tiny / 1-eps inside Sigmoid/StickBreaking are numerical guards and are treated as '
                        'the identity (they only act beyond |x| ~ 700)')
 
     def body(t, V, Wt):
+        from torchtree.distributions import transforms as tt
+
+        saved = tt.jacobian
+
+        def sym_jacobian(f, inp):
+            # torch.autograd.functional.jacobian (used by CumSumExpTransform.log_abs_det_jacobian): answered by the
+            # engine's reverse differentiation of f traced on fresh leaves (honouring autograd stops, as in C07),
+            # instantiated at the actual input
+            dd = t.dag
+            z = new_vars(f'jac_in!{next(t.fresh_counter)}', inp._v.detach().clone())
+            y_ = f(z)
+            zi = z._ids.reshape(-1).tolist()
+            J_ = [dd.grad(a, zi, honour_stops=True) for a in y_._ids.reshape(-1).tolist()]
+            flat = dd.substitute([x for row in J_ for x in row], dict(zip(zi, inp._ids.reshape(-1).tolist())))
+            return from_ids(torch.tensor(flat, dtype=torch.int64).reshape(tuple(y_.shape) + tuple(inp.shape)))
+
+        tt.jacobian = sym_jacobian
+        try:
+            return body_(t, V, Wt)
+        finally:
+            tt.jacobian = saved
+
+    def body_(t, V, Wt):
         d = t.dag
+        state['last_witness'] = dict(Wt)
         t.ignore_numeric_guards = True
         d.uf_eval.update(p_witness())
         dic = load_objects(js)
         from torchtree.evolution.substitution_model.abstract import SubstitutionModel
 
         for pid, (shape, names) in base.items():
-            dic[pid].tensor = cm.var_tensor(V, names).reshape(shape)
+            dic[pid].tensor = torch.log(cm.var_tensor(V, names)).reshape(shape)  # u = log(E), E > 0
         for o in list(dic.values()):
             if isinstance(o, SubstitutionModel):
                 install_p_stub(o)
@@ -787,6 +878,7 @@ def solver_stage(sub, groups, label, js, plan, dic0, tr):
                 R[T] = flat_ids(d, dic[T]())
                 continue
             tf, x_act, rep_act = pcs
+            state['tf_classes'].add(type(tf))
             R[T] = flat_ids(d, rep_act)
             lm = lemma_for(t, T, tf, x_act)
             if lm is None:
@@ -839,26 +931,69 @@ def solver_stage(sub, groups, label, js, plan, dic0, tr):
             for T in ET:
                 g4.hyp_goals += L[T]['deps']
             goals.append(g4)
+        # ---- path conditions that hold for ALL parameter values (argument validation of torch.distributions,
+        # positivity tests, ...) are proved once as such and are then not part of the region description
+        from symtorch.explore import prove
+
+        valid = []
+        for c in list(t.pcs):
+            key = d.to_str(c, 10 ** 6)
+            st = state['pc_cache'].get(key)
+            if st is None:
+                st, _, _ = prove(d, ground_axioms(d, [c], rounds=3), c, timeout=8.0, tr=tr, solvers=SOLVERS,
+                                 label='path condition holds for all parameter values')
+                state['pc_cache'][key] = st
+            if st == 'proved':
+                valid.append(c)
+        for c in valid:
+            t.pcs.remove(c)
+            t._pcset.discard(c)
+        for g in goals:
+            if (g.info or {}).get('kind') == 'instance':
+                g.hyps = list(g.hyps) + valid
+        state['valid_pcs'] = max(state.get('valid_pcs', 0), len(valid))
         return goals
 
-    ex = Explorer(W, lambda d, V: [], body, tr, max_regions=40, timeout=40.0, closure_timeout=40.0, label=label,
+    ex = Explorer(W, lambda d, V: [d.lt(0, V[n]) for n in sorted(V)], body, tr, max_regions=40, timeout=40.0, closure_timeout=40.0, label=label,
                   check_defined=False, solvers=SOLVERS)
-    out = ex.run()
+    rp = {'sub': sub, 'groups': [list(g) for g in groups], 'kind': 'density'}
+    try:
+        out = ex.run()
+    except Exception as e:
+        # the real code raised while evaluating the densities at a point of the (unconstrained) domain
+        wit = state.get('last_witness', dict(W))
+        raised = replay_raises(js, plan, wit)
+        if raised is not None:
+            tr.violation(f'cli:{sub}:density-raises:{raised[0]}',
+                         f'torchtree-cli {label}: evaluating {plan["handed"]}() on the real objects at unconstrained values '
+                         f'{ {k: round(math.log(v), 4) for k, v in list(wit.items())[:8]} } raises {raised[0]}: {raised[1][:300]}',
+                         dict(rp, values=wit, kind='raises'))
+        else:
+            tr.inconc(f'{label}: symbolic run raised {type(e).__name__}: {str(e)[:300]} (not reproduced on plain tensors)')
+        return
     tr.bounds['solver clause'] = ('per configuration: all real values of every base (unconstrained) Parameter below "joint"; path '
                                   'regions enumerated with a coverage certificate')
     unit = state.get('unit', set())
+    for cls in state['tf_classes']:
+        tr.fn(cls._call, cls.log_abs_det_jacobian)
     diff = structural_diff(plan, unit)
     tr.sample({'configuration': label, 'handed': plan['handed'], 'runnable': plan['runnable'], 'EXPECTED (from the JSON walk)': sorted(plan['expected']),
                'listed in handed density': plan['included'], 'unit-Jacobian transforms': sorted(unit),
-               'priors': plan['priors'], 'regions': out.regions, 'coverage certificate': out.closed,
+               'priors': plan['priors'], 'regions': out.regions, 'coverage certificate': out.closed, 'path conditions valid everywhere': state.get('valid_pcs', 0),
                'symbols': len(W)}, limit=400)
-    rp = {'sub': sub, 'groups': [list(g) for g in groups], 'kind': 'density'}
-
     def report_assembly(vals, how):
         mismatch, detail, lds = replay_density(js, plan, vals)
         if not mismatch:
             return False, detail
         n = 0
+        if plan['handed'] == 'joint' and diff and all(k == 'jacobian-missing' for k, _ in diff):
+            miss = [T for _, T in diff if abs(lds.get(T, 0.0)) > 1e-12]
+            if miss:
+                tr.violation(f'cli:{sub}:jacobian-missing:ALL',
+                             f'torchtree-cli {label}: the {plan["runnable"]} moves the unconstrained parameters but is handed the constrained '
+                             f'density "joint" itself: the log-Jacobians of {miss} (all carry priors) are missing; {detail} ({how})',
+                             dict(rp, values=vals))
+                return True, detail
         for kind, T in diff:
             if abs(lds.get(T, 0.0)) > 1e-12:
                 n += 1
@@ -898,7 +1033,11 @@ def solver_stage(sub, groups, label, js, plan, dic0, tr):
                     tr.inconc(f'{label}: "{g.label}" refuted but not reproduced ({detail})')
         else:
             T = (g.info or {}).get('T')
-            ok, detail = replay_transform(js, plan, T, wit)
+            ok, detail = replay_transform(js, plan, T, vals) if vals else (False, '')
+            if ok:
+                wit = vals
+            else:
+                ok, detail = replay_transform(js, plan, T, wit)
             if ok:
                 tr.violation(g.signature, f'torchtree-cli {label}: {g.label} fails: {detail}', dict(rp, values=wit, term=T, kind='transform'))
             else:
@@ -914,6 +1053,18 @@ def solver_stage(sub, groups, label, js, plan, dic0, tr):
         ok, detail = report_assembly(dict(W), 'structural difference; initial witness')
         if not ok:
             tr.notes.append(f'{label}: structural difference {diff} without numeric effect ({detail})')
+
+
+def replay_raises(js, plan, vals):
+    register_all()
+    try:
+        dic = load_objects(js)
+        set_values(dic, plan['base'], vals)
+        dic[plan['handed']]()
+        dic['joint']()
+    except Exception as e:
+        return type(e).__name__, str(e)
+    return None
 
 
 def replay_listed(js, plan, vals):
@@ -1008,6 +1159,42 @@ def init_configs(subs):
     return out
 
 
+SUB_OPTIONS = {
+    'hmc': [(('--adapt_mass_matrix',),), (('--adapt_step_size', 'dualaveraging'),), (('--adapt_step_size', 'adaptive'),),
+            (('--mass_matrix', 'dense'),), (('--split',),), (('--warmup', '100'),),
+            (('--join', 'substmodel.kappa.unres,substmodel.frequencies.unres'),),
+            (('--mass_matrix', 'dense'), ('--split',), ('--adapt_mass_matrix',))],
+    'advi': [(('-q', 'fullrank'),), (('-q', 'realnvp'),), (('--distribution', 'LogNormal'),), (('--distribution', 'Gamma'),),
+             (('--divergence', 'KLpq'),), (('--K_grad_samples', '2'),), (('--K_elbo_samples', '2'),), (('--entropy',),),
+             (('--samples', '0'),), (('--iter', '0'),), (('--samples', '0'), ('--iter', '0')), (('--checkpoint_all',),)],
+    'map': [(('--line_search_fn', 'strong_wolfe'),)],
+    'mcmc': [],
+}
+MODEL_OPTIONS = [(('--clockpr', 'exponential'),), (('--clockpr', 'exponential(100)'),), (('--include_jacobian',),),
+                 (('--use_ambiguities',),), (('--use_tip_states',),), (('--use_path',),), (('--heights_init', 'tree'),), (('--keep',),),
+                 (('--coalescent_init', 'tree'), ('--heights_init', 'tree')), (('--rate_init', 'regression'),),
+                 (('--heights_init', 'regression'),), (('--coalescent_integrated', '3,0.003'),), (('--dates', '0'),)]
+PIECEWISE_OPTIONS = [(('--gmrf_integrated',),), (('--coalescent_non_centered',),), (('--disable_time_aware',),),
+                     (('--disable_gmrf_rescaling',),)]
+
+
+def option_configs(subs):
+    """Further documented options, one at a time, on top of a fixed model (HKY+G4, strict clock, constant / skyride /
+    skygrid coalescent): sampler/optimiser options of each sub-command and model options outside the core grid."""
+    out = []
+    for sub in subs:
+        base = groups_for('HKY', 4, False, 'strict', 'ratio', 'constant')
+        for ex in SUB_OPTIONS[sub] + MODEL_OPTIONS:
+            out.append((sub, base + tuple(ex), ()))
+        for coal in ('skyride', 'skygrid'):
+            for ex in PIECEWISE_OPTIONS:
+                if coal == 'skygrid' and ex[0][0].startswith('--disable'):
+                    continue
+                out.append((sub, groups_for('JC69', 1, False, 'strict', 'ratio', coal) + tuple(ex), ()))
+        out.append((sub, groups_for('HKY', 1, False, None, 'ratio', None, (('--brlenspr', 'gammadir'),)), ()))
+    return out
+
+
 def quick_configs():
     q = [
         ('hmc', groups_for('HKY', 4, True, 'strict', 'ratio', 'constant')),
@@ -1021,6 +1208,11 @@ def quick_configs():
         ('hmc', groups_for('JC69', 1, False, 'strict', 'ratio', None)),
         ('advi', groups_for('JC69', 1, False, 'ucln', 'ratio', 'constant')),
         ('hmc', groups_for('JC69', 1, False, None, 'ratio', 'constant')),
+        # outside the core grid: non-centred skyride, sampler options, full-rank ADVI
+        ('hmc', groups_for('JC69', 1, False, 'strict', 'ratio', 'skyride', (('--coalescent_non_centered',),))),
+        ('hmc', groups_for('HKY', 1, False, 'strict', 'ratio', 'constant',
+                           (('--adapt_mass_matrix',), ('--adapt_step_size', 'dualaveraging'), ('--warmup', '100'), ('--mass_matrix', 'dense')))),
+        ('advi', groups_for('HKY', 1, False, 'strict', 'ratio', 'constant', (('-q', 'fullrank'),))),
     ]
     return [(s, g, ()) for s, g in q]
 
@@ -1030,7 +1222,7 @@ def tasks_for(tier, tmp):
         cfgs = quick_configs() + init_configs(('hmc', 'advi'))[:4]
         exe = [('hmc', groups_for('HKY', 4, False, 'strict', 'ratio', 'constant')), ('advi', groups_for('JC69', 1, False, None, 'ratio', None))]
     else:
-        cfgs = full_grid() + init_configs(SUBS)
+        cfgs = full_grid() + init_configs(SUBS) + option_configs(SUBS)
         exe = [(s, groups_for('HKY', 4, True, 'strict', 'ratio', 'skygrid')) for s in SUBS]
     ts = [('cfg', sub, groups, wants, tmp, True) for sub, groups, wants in cfgs]
     ts += [('exe', sub, groups, tmp) for sub, groups in exe]
@@ -1056,16 +1248,26 @@ def body(chk):
         'simplex-valued transforms (stick breaking): Jacobian of the first K-1 coordinates (density w.r.t. Lebesgue measure on them)',
         'transforms whose differentiated forward map has determinant identically 1 (AffineTransform with scale 1, node-height '
         'differences) contribute log|det J| = 0 and may be listed or not',
+        'solver variables: each unconstrained real u is written u = log(E) with a variable E > 0 (a bijection (0,inf) -> R; keeps the '
+        'path regions semi-algebraic so that the coverage query is decidable); replays convert back',
+        'ADVI: the initial point is the mean (loc) of the initial Normal variational factors (the tensors in the file are overwritten by '
+        'draws before the model is ever evaluated); values requested through options are compared with the tensors in the file',
         'samplers/optimisers are constructed but not run; float32 rounding of initial values computed by the CLI is tolerated (2e-6)',
     }
     tmp = tempfile.mkdtemp(prefix='c19_')
     try:
         make_data(tmp)
-        chk.total.bounds['configurations'] = ('quick: 11 representative configurations + 4 with initial-value options; thorough: '
+        chk.total.bounds['configurations'] = ('quick: 14 representative configurations + 4 with initial-value options; thorough: '
                                               'the full grid {hmc,advi,map,mcmc} x {JC69,HKY,GTR} x C{1,4} x invariant{off,on} x '
-                                              'clock{none,strict,ucln} x heights{ratio,shift} x coalescent{none,constant,skyride,skygrid}')
+                                              'clock{none,strict,ucln} x heights{ratio,shift} x coalescent{none,constant,skyride,skygrid} '
+                                              '(960) + 12 with initial-value options + further documented options one at a time on a '
+                                              'fixed model (sampler/optimiser options, clock prior, tip coding, initialisation, '
+                                              'integrated / non-centred / time-aware GMRF variants)')
         chk.total.bounds['data'] = f'3 taxa {list(FASTA)} (dates from names), {len(next(iter(FASTA.values())))} sites, tree {NEWICK}'
-        pmap(run_task, tasks_for(chk.tier, tmp), chk.total)
+        tasks = tasks_for(chk.tier, tmp)
+        chk.total.bounds['configuration list'] = [f'{t[1]} {opts_str(t[2])}' + (' [executable vs in-process]' if t[0] == 'exe' else '')
+                                                  for t in tasks]
+        pmap(run_task, tasks, chk.total)
     finally:
         shutil.rmtree(tmp, ignore_errors=True)
 
@@ -1096,6 +1298,10 @@ def replay_file(path):
         if kind == 'initial':
             print('replay:', r['what'])
             return 1
+        if kind == 'raises':
+            raised = replay_raises(js, plan, rp.get('values', {}))
+            print(('REPRODUCED ' + ': '.join(raised)[:400]) if raised else 'NOT REPRODUCED')
+            return 1 if raised else 0
         if kind == 'transform':
             ok, detail = replay_transform(js, plan, rp['term'], rp.get('values', {}))
         elif kind == 'listed':
